@@ -81,7 +81,26 @@ MA4 = (f"""(define (domain ma4)
 (:goal (and (busy a1))))
 """)
 
-ALL = {"ma1": MA1, "ma2": MA2, "ma3": MA3, "ma2b": MA2B, "ma4": MA4}
+# every object is a constant of the domain: the problem declares no objects (its object table is empty, not missing)
+MA5 = (f"""(define (domain ma5)
+{REQ}
+(:types agent item - object)
+(:constants a1 a2 a3 - agent i1 - item)
+(:predicates (own ?a - agent ?i - item) (clean ?i - item) (idle ?a - agent))
+(:action wash :parameters (?a - agent)
+  :precondition (and (idle ?a))
+  :effect (and (not (idle ?a)) (forall (?i - item) (when (own ?a ?i) (clean ?i)))))
+(:action grab :parameters (?a - agent)
+  :precondition (and (not (own ?a i1))) :effect (and (own ?a i1) (when (clean i1) (idle ?a))))
+(:action rest :parameters (?a - agent)
+  :precondition (and (forall (?i - item) (and (clean ?i)))) :effect (and (idle ?a))))
+""", """(define (problem ma5p) (:domain ma5)
+(:objects )
+(:init (idle a1) (own a1 i1) (idle a2))
+(:goal (and (clean i1))))
+""")
+
+ALL = {"ma1": MA1, "ma2": MA2, "ma3": MA3, "ma2b": MA2B, "ma4": MA4, "ma5": MA5}
 
 
 def agent_of(call_args, agents):
